@@ -173,3 +173,33 @@ CHECKS["C02"] = {
         rapid_job("counters", "./verifh/c02", "TestStressCounters", 1500, 5000, shards_t=8),
     ],
 }
+
+CHECKS["C03"] = {
+    "rule": ("rapid-generated scenarios: Value or Collection (0-3 initial items), 1-3 writer scripts of 1-5 writes, 1-3 subscriptions (Pull / PullID, updates-only, backpressure, read mask) opened before, "
+             "after, or inline inside a named window of a writer (gau.*, *.afterCommit, coll.delete.*, bus.send.*), plus injected writes inside the subscribe windows (*.sub.afterSnapshot, "
+             "bus.listen.beforeRegister), second writers inside the commit->publish window, cancels and yields; and a goroutine stress variant. After the writers stop a sentinel write marks "
+             "quiescence; folding each live subscription's events (seed first) must equal Get/List (under its mask), the last Value event must be the final value. non-trivial = an injected "
+             "subscribe/write/cancel actually fired in its window (forced) or >=2 concurrent writers (stress); distinct by (fired injections, subscriptions, scripts)"),
+    "assumptions": ["only the named windows are forced; anything else is explored statistically", "quiescence is decided by a sentinel write with a 10 s bound",
+                    "updates-only subscriptions are checked for ids written after the subscribe call returned"],
+    "jobs": [
+        rapid_job("forced", "./verifh/c03", "TestForcedSubscribe", 4000, 30000, timeout={Q: 150, T: 1200}),
+        rapid_job("stress", "./verifh/c03", "TestStressSubscribe", 1500, 10000, timeout={Q: 150, T: 1200}),
+    ],
+}
+
+CHECKS["C10"] = {
+    "rule": ("rapid-generated shutdown scenarios: (bus) 0-8 listeners, 1-8 sends, cancels and new listeners injected inline at bus.send.afterSnapshot / bus.send.beforeListener (per listener) / "
+             "bus.listen.beforeRegister or between sends, consumers that stop receiving and are cancelled later; (resources) Value/Collection with 0-6 Pull/PullID subscriptions of mixed options, a writer "
+             "issuing 1-10 writes/deletes, cancels and new subscriptions injected at every hook point, stalled consumers; plus goroutine stress variants. Oracle: every cancelled subscription's channel "
+             "closes within a bound, no panic, writes are not stalled (4 s), PullID ends when its item is removed, listeners live for a whole send get it exactly once in per-sender order, nothing after "
+             "close, and the count of minibus/resource goroutines returns to zero. non-trivial = an injected cancel/listen actually fired inside a Send/Listen/write window, or a consumer stalled before "
+             "cancelling; distinct by (fired actions, subscriptions, writes)"),
+    "assumptions": ["goroutines are counted by frames under internal/minibus and pkg/resource (runtime.Stack)", "a stalled backpressured consumer is always cancelled within a few ms by a timer (so writers are only held that long)"],
+    "jobs": [
+        rapid_job("bus", "./verifh/c10", "TestBusShutdown", 2500, 15000, timeout={Q: 400, T: 2400}),
+        rapid_job("bus-stress", "./verifh/c10", "TestBusStress", 400, 3000, timeout={Q: 400, T: 2400}),
+        rapid_job("resource", "./verifh/c10", "TestResourceShutdown", 1500, 10000, timeout={Q: 400, T: 2400}),
+        rapid_job("resource-stress", "./verifh/c10", "TestResourceShutdownStress", 300, 2500, timeout={Q: 400, T: 2400}),
+    ],
+}
